@@ -52,15 +52,15 @@ func (g *ProgGen) plabel(p string) string {
 
 // NatFamily adds `type natK`, zero/succ/consume/double/add over it at mode m and returns the names.
 type natFam struct {
-	ty, zero, succ, consume, double, add string
+	ty, zero, succ, consume, double, add, sum2 string
 	m                                    ast.Mode
 	lz, ls                               string
 }
 
 func (g *ProgGen) natFamily(k int) natFam {
-	m := g.TG.GenMode()
+	m := ast.Mode(g.Pick(4, "natmode"))
 	f := natFam{m: m, ty: fmt.Sprintf("nat%d", k), zero: fmt.Sprintf("zero%d", k), succ: fmt.Sprintf("succ%d", k),
-		consume: fmt.Sprintf("consume%d", k), double: fmt.Sprintf("double%d", k), add: fmt.Sprintf("add%d", k)}
+		consume: fmt.Sprintf("consume%d", k), double: fmt.Sprintf("double%d", k), add: fmt.Sprintf("add%d", k), sum2: fmt.Sprintf("sum%d", k)}
 	ls := g.TG.labels(2)
 	f.lz, f.ls = ls[0], ls[1]
 	natT := func() *ast.Ty { return ast.NameTy(m, f.ty) }
@@ -90,6 +90,12 @@ func (g *ProgGen) natFamily(k int) natFam {
 	fun(f.add, nat(), tCase(ast.N("a"),
 		br(f.lz, "c", tWait("c", tFwd("b"))),
 		br(f.ls, "c", tNew("r", nil, tCall(f.add, "c", "b"), tSelSelf(f.ls, "r")))), "a", "b")
+	// sum2 recurses on both arguments at once, so that one process holds the predecessors of two numbers
+	fun(f.sum2, nat(), tCase(ast.N("a"),
+		br(f.lz, "c", tWait("c", tFwd("b"))),
+		br(f.ls, "a'", tCase(ast.N("b"),
+			br(f.lz, "c", tWait("c", tSelSelf(f.ls, "a'"))),
+			br(f.ls, "b'", tNew("r", nil, tCall(f.sum2, "a'", "b'"), tNew("t", nat(), tSelSelf(f.ls, "r"), tSelSelf(f.ls, "t"))))))), "a", "b")
 	g.feat("recursive-data")
 	return f
 }
@@ -115,17 +121,32 @@ func (g *ProgGen) natScenario(k int) {
 	live = append(live, mkNum(g.Int(0, 3, "num")))
 	nops := g.Int(1, 4, "nops")
 	for i := 0; i < nops; i++ {
-		switch g.Pick(5, "natop") {
+		op := g.Pick(5, "natop")
+		if m.C() && i == 0 && g.Likely(50, "splitfirst") {
+			op = 2
+		}
+		switch op {
 		case 0: // double
 			x, r := live[len(live)-1], g.fresh("d")
 			live[len(live)-1] = r
 			steps = append(steps, func(k *ast.Term) *ast.Term { return tNew(r, nil, tCall(f.double, x), k) })
 			g.feat("rec-double")
-		case 1: // add a fresh number
-			y := mkNum(g.Int(0, 2, "num2"))
+		case 1: // add a fresh number (recursion on one or on both arguments)
+			y := mkNum(g.Int(0, 3, "num2"))
+			if g.Bool("doubled") {
+				y2 := g.fresh("d")
+				yy := y
+				steps = append(steps, func(k *ast.Term) *ast.Term { return tNew(y2, nil, tCall(f.double, yy), k) })
+				y = y2
+			}
 			x, r := live[len(live)-1], g.fresh("a")
 			live[len(live)-1] = r
-			steps = append(steps, func(k *ast.Term) *ast.Term { return tNew(r, nil, tCall(f.add, x, y), k) })
+			fn := f.add
+			if g.Bool("sum2") {
+				fn = f.sum2
+				g.feat("rec-sum2")
+			}
+			steps = append(steps, func(k *ast.Term) *ast.Term { return tNew(r, nil, tCall(fn, x, y), k) })
 			g.feat("rec-add")
 		case 2: // split (contraction) a recursive value
 			if m.C() {
@@ -147,6 +168,9 @@ func (g *ProgGen) natScenario(k int) {
 			steps = append(steps, func(k *ast.Term) *ast.Term { return tPrint(l, k) })
 		}
 	}
+	if m.C() && g.Chance(60, "pairserver") {
+		g.pairServer(k, f)
+	}
 	// consume every live number
 	for _, x := range live {
 		x, u := x, g.fresh("u")
@@ -162,6 +186,7 @@ func (g *ProgGen) natScenario(k int) {
 // serverScenario adds a demand-driven recursive server and a client that sends a few requests.
 func (g *ProgGen) serverScenario(k int) {
 	m := g.TG.GenMode()
+	m = ast.Mode(g.Pick(4, "srvmode"))
 	sT, rT := fmt.Sprintf("srv%d", k), fmt.Sprintf("rsp%d", k)
 	server, client := fmt.Sprintf("server%d", k), fmt.Sprintf("client%d", k)
 	ls := g.TG.labels(3)
@@ -209,4 +234,108 @@ func (g *ProgGen) serverScenario(k int) {
 	}
 	g.Prcs = append(g.Prcs, &ast.Decl{Kind: ast.DPrc, Providers: []string{fmt.Sprintf("smain%d", k)}, Ty: one(), Body: body})
 	g.feat("recursive-server")
+}
+
+
+// counterScenario adds a recursive server that carries a state channel and calls itself with
+// the provider passed explicitly (`counter(s, st)`), used by a client that ticks a few times and
+// then stops it, drops it, or splits it between two clients.
+func (g *ProgGen) counterScenario(k int) {
+	m := ast.Mode(g.Pick(4, "ctrmode"))
+	cT := fmt.Sprintf("ctr%d", k)
+	counter, user := fmt.Sprintf("counter%d", k), fmt.Sprintf("user%d", k)
+	ls := g.TG.labels(2)
+	tick, stop := ls[0], ls[1]
+	ct := ast.With(m, ast.Br{L: tick, T: ast.NameTy(m, cT)}, ast.Br{L: stop, T: ast.One(m)})
+	ct.Ann = m.String()
+	g.TypeDecl = append(g.TypeDecl, &ast.Decl{Kind: ast.DType, Name: cT, Ty: ct})
+	cty := func() *ast.Ty { return annOf(m, ast.NameTy(m, cT)) }
+	one := func() *ast.Ty { return annOf(m, ast.One(m)) }
+	// let counter(st : m 1) : ctr = case self (tick<s> => print ..; counter(s, st) | stop<s> => print ..; wait st; close s)
+	body := tCase(ast.SelfNm,
+		br(tick, "s", tPrint(g.plabel("tick"), tCall(counter, "s", "st"))),
+		br(stop, "s", tPrint(g.plabel("halt"), tWait("st", &ast.Term{Kind: ast.TClose, X: ast.N("s")}))))
+	g.Funs = append(g.Funs, &ast.Decl{Kind: ast.DFun, Name: counter, Ty: cty(), Params: []ast.Param{{Name: "st", Ty: one()}}, Body: body})
+	n := g.Int(0, 3, "ticks")
+	for i := 0; i <= n; i++ {
+		name := fmt.Sprintf("%s_%d", user, i)
+		var b *ast.Term
+		if i == 0 {
+			if m.W() && g.Bool("dropcounter") {
+				b = tDrop("c", tClose())
+				g.feat("counter-dropped")
+			} else {
+				b = tNew("x", one(), tSelOn("c", stop), tWait("x", tClose()))
+			}
+		} else {
+			b = tNew("c'", cty(), tSelOn("c", tick), tCall(fmt.Sprintf("%s_%d", user, i-1), "c'"))
+		}
+		g.Funs = append(g.Funs, &ast.Decl{Kind: ast.DFun, Name: name, Ty: one(), Params: []ast.Param{{Name: "c", Ty: cty()}}, Body: b})
+	}
+	top := fmt.Sprintf("%s_%d", user, n)
+	mk := func(k *ast.Term) *ast.Term {
+		return tNew("u", one(), tClose(), tNew("cn", nil, tCall(counter, "u"), k))
+	}
+	var main *ast.Term
+	if m.C() && g.Bool("splitcounter") {
+		main = mk(tSplit("c1", "c2", "cn", tNew("r1", nil, tCall(top, "c1"), tNew("r2", nil, tCall(top, "c2"), tWait("r1", tWait("r2", tClose()))))))
+		g.feat("counter-split")
+	} else {
+		main = mk(tNew("r1", nil, tCall(top, "cn"), tWait("r1", tPrint(g.plabel("counted"), tClose()))))
+	}
+	g.Prcs = append(g.Prcs, &ast.Decl{Kind: ast.DPrc, Providers: []string{fmt.Sprintf("cmain%d", k)}, Ty: one(), Body: main})
+	g.feat("recursive-counter")
+}
+
+
+// pairServer adds a negative (hence duplicable as a whole) server that holds the predecessors of
+// two numbers built by the same function, and a client that splits it: the duplicated process
+// holds two different channels that were created under the same name.
+func (g *ProgGen) pairServer(k int, f natFam) {
+	m := f.m
+	pT, srv := fmt.Sprintf("psrv%d", k), fmt.Sprintf("pairsrv%d", k)
+	golab := g.TG.labels(1)[0]
+	pt := ast.With(m, ast.Br{L: golab, T: ast.One(m)})
+	pt.Ann = m.String()
+	g.TypeDecl = append(g.TypeDecl, &ast.Decl{Kind: ast.DType, Name: pT, Ty: pt})
+	nat := func() *ast.Ty { return annOf(m, ast.NameTy(m, f.ty)) }
+	one := func() *ast.Ty { return annOf(m, ast.One(m)) }
+	pty := func() *ast.Ty { return annOf(m, ast.NameTy(m, pT)) }
+	body := tCase(ast.SelfNm, br(golab, "s",
+		tNew("u1", nil, tCall(f.consume, "a"), tWait("u1", tNew("u2", nil, tCall(f.consume, "b"), tWait("u2", tPrint(g.plabel("pair"), &ast.Term{Kind: ast.TClose, X: ast.N("s")})))))))
+	g.Funs = append(g.Funs, &ast.Decl{Kind: ast.DFun, Name: srv, Ty: pty(), Params: []ast.Param{{Name: "a", Ty: nat()}, {Name: "b", Ty: nat()}}, Body: body})
+	num := func(name string, k *ast.Term) *ast.Term {
+		// name = double(succ^n(zero)) with n >= 1, built by the same functions for both numbers
+		n := g.Int(1, 2, "pairnum")
+		cur := name + "z"
+		var steps []func(*ast.Term) *ast.Term
+		c0 := cur
+		steps = append(steps, func(k *ast.Term) *ast.Term { return tNew(c0, nil, tCall(f.zero), k) })
+		for i := 0; i < n; i++ {
+			nx, prev := fmt.Sprintf("%s%d", name, i), cur
+			steps = append(steps, func(k *ast.Term) *ast.Term { return tNew(nx, nil, tCall(f.succ, prev), k) })
+			cur = nx
+		}
+		last := cur
+		steps = append(steps, func(k *ast.Term) *ast.Term { return tNew(name, nil, tCall(f.double, last), k) })
+		for i := len(steps) - 1; i >= 0; i-- {
+			k = steps[i](k)
+		}
+		return k
+	}
+	consumeThen := func(x string, k *ast.Term) *ast.Term {
+		u := g.fresh("u")
+		return tNew(u, nil, tCall(f.consume, x), tWait(u, k))
+	}
+	use := tNew("ps", nil, tCall(srv, "px", "py"), tSplit("p1", "p2", "ps",
+		tNew("g1", one(), tSelOn("p1", golab), tNew("g2", one(), tSelOn("p2", golab), tWait("g1", tWait("g2", tPrint(g.plabel("pairdone"), tClose())))))))
+	inner := tCase(ast.N("dy"),
+		br(f.lz, "c", tWait("c", consumeThen("px", tClose()))),
+		br(f.ls, "py", use))
+	outer := tCase(ast.N("dx"),
+		br(f.lz, "c", tWait("c", consumeThen("dy", tClose()))),
+		br(f.ls, "px", inner))
+	main := num("dx", num("dy", outer))
+	g.Prcs = append(g.Prcs, &ast.Decl{Kind: ast.DPrc, Providers: []string{fmt.Sprintf("pmain%d", k)}, Ty: one(), Body: main})
+	g.feat("pair-server-split")
 }
